@@ -581,3 +581,141 @@ def c09():
 
 
 CHECKS.update({"C08": c08, "C09": c09, "C10": c10, "C11": c11})
+
+
+# =========================================================================== C05
+SILENT = {"Striping", "LevelsBounded", "RowsExact", "BatchParses", "PageWellFormed", "PageSize", "RecordsPerColumn", "FooterDecodes", "Framing",
+          "SchemaIsTree", "SchemaMatchesType", "ChunksMatchLeaves", "FooterTruthful", "FooterWalkFindsPages", "HeadMagic", "ScannedRecordsStable"}
+PANIC = {"AddDoesNotPanic", "ReaderDoesNotPanic"}
+ERROR = {"NewSucceeds", "WriteSucceeds", "CloseSucceeds", "ReaderReportsNoError"}
+
+
+def category(conjs, events):
+    if SILENT & set(conjs):
+        return "silent"
+    pan = any(e.get("panic") for e in events if e.get("ev") in ("New", "Add", "Write", "Close", "Read"))
+    if PANIC & set(conjs) or pan:
+        return "panic"
+    return "error"
+
+
+def stable_toff(forest):
+    import hashlib
+    return int(hashlib.sha1(json.dumps(forest, sort_keys=True).encode()).hexdigest()[:6], 16)
+
+
+def c05():
+    from vlib import judge
+    from wfam import split_cases
+    import sys
+    ck = Check("C05", "translation_validation")
+    q = ck.quick()
+    emit = None
+    for i, a in enumerate(sys.argv):
+        if a == "--emit-findings":
+            emit = sys.argv[i + 1]
+    small = export_shapes(3)
+    if q:
+        u5 = export_shapes(5)
+        skeys = {json.dumps(f, sort_keys=True) for f in small}
+        rest = [f for f in u5 if json.dumps(f, sort_keys=True) not in skeys]
+        forests = small + ck.rng.sample(rest, 150)
+    else:
+        forests = export_shapes(5)
+    ck.cov["universe"] = "all %d schemas with <= 3 nodes + %d seeded from the 7932 schemas with <= 5 nodes" % (len(small), 150) if q else \
+        "all %d schemas with <= 5 nodes (depth <= 3, <= 3 children per group)" % len(forests)
+    progs = universe_programs(forests, toff_fn=lambda i, f: stable_toff(f))
+    build_programs(progs)
+    ck.cov["programs"] = len(progs)
+    ok = usable(progs)
+    load_schemas(ok)
+    recs = export_records([(p.key, p.schema) for p in ok], 2, 40 if q else 300, ck.seed)
+    for p in ok:
+        rr = recs[p.key]["recs"]
+        k = len(rr)
+        p.cases = [{"page": 1000, "codec": CODECS[(k + ck.seed) % 3], "poff": (ck.seed + k) % 16, "ops": ops_of("a" * k + "w", rr), "reads": [{"mode": "plain"}]},
+                   {"page": 2, "codec": CODECS[(k + 1 + ck.seed) % 3], "poff": (ck.seed + 2 * k) % 16,
+                    "ops": ops_of("a" * (k - k // 2) + "w" + "a" * (k // 2) + ("w" if k // 2 else ""), rr), "reads": [{"mode": "plain"}]}]
+        ck.add("values_tried", 2 * k)
+    run_programs(ok, "c05", timeout=1800)
+    # judge everything, then reduce to one verdict per program
+    events = [e for p in ok for e in p.events]
+    died = [e for e in events if e.get("ev") == "DriverDied"]
+    events = [e for e in events if e.get("ev") != "DriverDied"]
+    props = ["C01", "C02", "C03", "HARNESS"]
+    verdicts, stats = judge(events, props, tag="c05")
+    ck.cov["traces_validated_against_impl"] = stats["cases"]
+    ck.cov["trace_events"] = stats["events"]
+    if [v for v in verdicts if v["prop"] == "HARNESS"]:
+        raise HarnessError("harness inconsistency in C05: %s" % [v for v in verdicts if v["prop"] == "HARNESS"][:3])
+    per_prog = {}
+    for v in verdicts:
+        pi = int(v["case"].split(":")[0])
+        per_prog.setdefault(pi, []).append(v)
+    findings = []
+    counts = {}
+    for i, p in enumerate(progs):
+        if p.build["status"] != "ok":
+            findings.append((p, p.build["status"], {"detail": p.build["detail"]}))
+    for pi, vs in per_prog.items():
+        p = ok[pi]
+        bycase = {}
+        for v in vs:
+            bycase.setdefault(v["case"], set()).add(v["conjunct"])
+        cats = {}
+        evmap = dict(split_cases(p.events))
+        for cid, conjs in bycase.items():
+            cats.setdefault(category(conjs, evmap.get(cid, [])), (cid, sorted(conjs)))
+        for cat in ("silent", "panic", "error"):
+            if cat in cats:
+                cid, conjs = cats[cat]
+                findings.append((p, cat, {"conjuncts": conjs, "case": p.cases[int(cid.split(":")[1])], "events": evmap.get(cid, [])[:30]}))
+    for p in ok:
+        if any(e.get("ev") == "DriverDied" for e in p.events) or any(e.get("ev") == "DriverPanic" for e in p.events):
+            findings.append((p, "driver-died", {"detail": [e for e in p.events if e.get("ev") in ("DriverDied", "DriverPanic")][:2]}))
+    ck.cov["disagreements_checked"] = len(findings)
+    out = []
+    new = 0
+    for p, cat, info in sorted(findings, key=lambda x: (x[1], x[0].key)):
+        counts[cat] = counts.get(cat, 0) + 1
+        out.append({"property": "C05", "key": p.key, "what": cat, "status": "known"})
+        if cat == "driver-died":
+            raise HarnessError("driver died on %s: %s" % (p.key, info))
+        if ck.is_known(p.key, cat) is None:
+            new += 1
+            if new > 15:
+                continue
+            if cat in ("silent", "panic", "error"):
+                # confirm in a fresh process
+                c2 = dict(info["case"])
+                c2["id"] = "0:0"
+                evs = [e for e in run_driver_fresh(p, c2)]
+                v2, _ = judge(evs, props, tag="c05c", chunks=1)
+                if category({v["conjunct"] for v in v2}, evs) != cat and not ({v["conjunct"] for v in v2} & set(info["conjuncts"])):
+                    raise HarnessError("C05 verdict %s on %s not reproduced" % (cat, p.key))
+        ck.report(p.key, cat, dict(info, program=p.key, source=p.src))
+    ck.cov["failure_kinds"] = counts
+    ck.cov["programs_ok"] = len(progs) - len({f[0].key for f in findings})
+    ck.sample({"program": progs[0].key, "source": progs[0].src})
+    ck.sample({"program": progs[-1].key, "records": len(progs[-1].cases[0]["ops"]) - 2 if progs[-1].cases else 0})
+    for p, cat, info in findings[:3]:
+        ck.sample({"program": p.key, "failure": cat, "detail": str(info.get("conjuncts") or info.get("detail"))[:200]})
+    ck.cov["rule"] = ("program = one schema of the bounded grammar rendered as Go structs (leaf types a fixed function of the shape); parquetgen is run twice "
+                      "(outputs must be identical), the package compiled, and every TLC-exported record structure (list lengths <= 2, seeded sample above the "
+                      "cap) written in two layouts and read back; TLC judges the C01, C02 and C03 conjuncts; failure kinds: gen-fail, compile-fail, "
+                      "nondeterministic, panic, error, silent (wrong data without error)")
+    ck.cov["exhaustive"] = not q
+    if emit:
+        with open(emit, "w") as f:
+            for o in out:
+                f.write(json.dumps(o) + "\n")
+    ck.assumptions += ["known findings are matched by (canonical shape, failure kind): a listed shape failing in a different way is reported as a violation"]
+    ck.finish()
+
+
+def run_driver_fresh(p, case):
+    from vlib import run_driver
+    return [e for e in run_driver(p.build, {"cases": [case]}, "confirm") if e.get("ev") != "DriverDied"]
+
+
+CHECKS["C05"] = c05
